@@ -338,4 +338,160 @@ theorem natCast_div_nonneg (a b : Nat) : (0 : Rat) ≤ (a : Rat) / (b : Rat) := 
   · have hb' : (0 : Rat) < (b : Rat) := by exact_mod_cast Nat.pos_of_ne_zero hb
     exact Rat.mul_nonneg (by exact_mod_cast Nat.zero_le a) (Rat.le_of_lt (Rat.inv_pos.mpr hb'))
 
+
+/-! ### Population flows -/
+
+theorem count_add_count_not {α} (p : α → Bool) (l : List α) : count p l + count (fun a => !p a) l = l.length := by
+  induction l with
+  | nil => simp [count]
+  | cons a l ih =>
+      simp only [count, List.filter_cons] at *
+      by_cases h : p a = true <;> simp [h] <;> omega
+
+theorem count_congr {α} (p q : α → Bool) (l : List α) (h : ∀ a ∈ l, p a = q a) : count p l = count q l := by
+  induction l with
+  | nil => rfl
+  | cons a l ih =>
+      have ha := h a (List.mem_cons_self ..)
+      have ih' := ih (fun b hb => h b (List.mem_cons_of_mem _ hb))
+      simp only [count, List.filter_cons, ha] at *
+      by_cases hq : q a = true <;> simp [hq, ih']
+
+theorem length_markDead (ti : Nat) (sel : List Nat) (l : List Person) : (markDead ti sel l).length = l.length := by
+  simp [markDead]
+
+theorem length_resolve (ti : Nat) (l : List Person) : (resolve ti l).length = l.length := by
+  simp [resolve]
+
+theorem length_popSnapshot (ti : Nat) (act : List Person) (s : PopStep) :
+    (popSnapshot ti act s).length = act.length + s.born := by
+  simp [popSnapshot, length_resolve, length_markDead]
+
+theorem mem_markDead (ti : Nat) (sel : List Nat) (l : List Person) (q : Person) (h : q ∈ markDead ti sel l) :
+    ∃ p ∈ l, q = p ∨ q = { p with tiDead := some (ti : Int) } := by
+  simp only [markDead, List.mem_map] at h
+  obtain ⟨⟨p, i⟩, hm, rfl⟩ := h
+  have hp : p ∈ l := (List.mem_zipIdx hm).2.2 ▸ List.getElem_mem _
+  refine ⟨p, hp, ?_⟩
+  by_cases hc : sel.contains i = true
+  · right; simp only [hc, ↓reduceIte]
+  · left; simp only [hc]; rfl
+
+/-- a position-wise update that keeps the `alive` flags keeps the number of the living -/
+theorem filter_alive_map_zipIdx (f : Person × Nat → Person) (hf : ∀ x, (f x).alive = x.1.alive) :
+    ∀ (l : List Person) (k : Nat),
+      (((l.zipIdx k).map f).filter (fun q => q.alive)).length = (l.filter (fun q => q.alive)).length := by
+  intro l
+  induction l with
+  | nil => intro k; rfl
+  | cons a l ih =>
+      intro k
+      simp only [List.zipIdx_cons, List.map_cons, List.filter_cons, hf]
+      by_cases ha : a.alive = true <;> simp [ha, ih (k + 1)]
+
+theorem count_alive_markDead (ti : Nat) (sel : List Nat) (l : List Person) :
+    count (fun q : Person => q.alive) (markDead ti sel l) = count (fun q : Person => q.alive) l := by
+  have := filter_alive_map_zipIdx
+    (fun x => if sel.contains x.2 then { x.1 with tiDead := some (ti : Int) } else x.1)
+    (by intro x; split <;> rfl) l 0
+  simpa [count, markDead] using this
+
+/-- the agents that stay: exactly the living ones of the snapshot, all alive -/
+theorem popNext_spec (ti : Nat) (act : List Person) (s : PopStep) :
+    (popNext ti act s).length = nAliveOf (popSnapshot ti act s) ∧ ∀ p ∈ popNext ti act s, p.alive = true := by
+  refine ⟨?_, ?_⟩
+  · have := count_alive_markDead ti s.late (popSnapshot ti act s)
+    simpa [popNext, nAliveOf, count] using this
+  · intro p hp
+    simp only [popNext, List.mem_filter] at hp
+    exact hp.2
+
+theorem popSnapshot_balance (ti : Nat) (act : List Person) (s : PopStep) :
+    nAliveOf (popSnapshot ti act s) + removedOf (popSnapshot ti act s) = act.length + s.born := by
+  rw [← length_popSnapshot ti act s]
+  exact count_add_count_not (fun q : Person => q.alive) _
+
+/-- no death pending from an earlier step: alive and `ti_dead` unset -/
+def NoPending (l : List Person) : Prop := ∀ p ∈ l, p.alive = true ∧ p.tiDead = none
+
+theorem popSnapshot_elem (ti : Nat) (act : List Person) (s : PopStep) (h : NoPending act) :
+    ∀ q ∈ popSnapshot ti act s,
+      (q.alive = true ∧ q.tiDead = none) ∨ (q.alive = false ∧ q.tiDead = some (ti : Int)) := by
+  intro q hq
+  simp only [popSnapshot, resolve, List.mem_map] at hq
+  obtain ⟨p', hp', rfl⟩ := hq
+  obtain ⟨p, hp, hcase⟩ := mem_markDead ti s.req _ p' hp'
+  have hp0 : p.alive = true ∧ p.tiDead = none := by
+    rcases List.mem_append.mp hp with h1 | h2
+    · exact h p h1
+    · have : p = fresh := (List.mem_replicate.mp h2).2
+      subst this; exact ⟨rfl, rfl⟩
+  rcases hcase with rfl | rfl
+  · left; simp [hp0.1, hp0.2]
+  · right; simp
+
+theorem removed_eq_newDeaths (ti : Nat) (act : List Person) (s : PopStep) (h : NoPending act) :
+    removedOf (popSnapshot ti act s) = newDeathsOf ti (popSnapshot ti act s) := by
+  apply count_congr
+  intro q hq
+  rcases popSnapshot_elem ti act s h q hq with ⟨h1, h2⟩ | ⟨h1, h2⟩ <;> simp [h1, h2]
+
+theorem popNext_noPending (ti : Nat) (act : List Person) (s : PopStep) (h : NoPending act) (hl : s.late = []) :
+    NoPending (popNext ti act s) := by
+  intro p hp
+  simp only [popNext, hl, List.mem_filter] at hp
+  obtain ⟨hm, ha⟩ := hp
+  have hq : p ∈ popSnapshot ti act s := by
+    simp only [markDead, List.mem_map] at hm
+    obtain ⟨⟨p0, i⟩, hm0, rfl⟩ := hm
+    have hp0 : p0 ∈ popSnapshot ti act s := (List.mem_zipIdx hm0).2.2 ▸ List.getElem_mem _
+    simpa using hp0
+  rcases popSnapshot_elem ti act s h p hq with ⟨h1, h2⟩ | ⟨h1, _⟩
+  · exact ⟨h1, h2⟩
+  · rw [h1] at ha; cases ha
+
+/-! ### Rates from the final store -/
+
+theorem lookup_map_key (f : Series → Series) (hf : ∀ s, (f s).key = s.key) (st : List Series) (key : String) :
+    lookup (st.map f) key = (lookup st key).map f := by
+  induction st with
+  | nil => rfl
+  | cons s st ih =>
+      simp only [lookup, List.map_cons, List.find?_cons, hf] at *
+      by_cases h : (s.key == key) = true
+      · simp [h]
+      · simp [h, ih]
+
+theorem specFinal_key (k : Rat) (raw : List Series) (s : Series) : (specFinal k raw s).key = s.key := by
+  unfold specFinal
+  split
+  · split <;> rfl
+  · split
+    · rfl
+    · split <;> rfl
+
+theorem gather_scale (k : Rat) (inds : List Nat) (l : List Rat) :
+    gather inds (l.map (· * k)) = (gather inds l).map (· * k) := by
+  unfold gather
+  by_cases h : inds.isEmpty = true
+  · simp [h]
+  · simp only [h, Bool.false_eq_true, ↓reduceIte, List.map_map]
+    apply List.map_congr_left
+    intro i _
+    simp only [Function.comp, List.getD, List.getElem?_map]
+    cases l[i]? <;> simp [Rat.zero_mul]
+
+/-- a plain scalable series: written during the run, flagged `scale`, not filled by `cumsum` -/
+def PlainScaled (raw : List Series) (key : String) : Prop :=
+  ∃ s, lookup raw key = some s ∧ s.scale = true ∧ s.cumOf = none
+
+theorem rateOf_final (k : Rat) (hk : 0 < k) (raw : List Series) (r : RateSpec)
+    (hn : PlainScaled raw r.newKey) (ha : PlainScaled raw r.aliveKey) :
+    rateOf (finalStore true k raw) r = rateOf raw r := by
+  obtain ⟨n, hn1, hn2, hn3⟩ := hn
+  obtain ⟨a, ha1, ha2, ha3⟩ := ha
+  rw [finalStore_eq]
+  simp only [rateOf, lookup_map_key _ (specFinal_key k raw), hn1, ha1, Option.map_some]
+  simp only [specFinal, hn3, ha3, hn2, ha2, ↓reduceIte, gather_scale, rateSeries_scale _ k hk]
+
 end StarsimModel.Results
